@@ -29,6 +29,9 @@ struct Log {
     fired: u64,
     trace_sites: Vec<(u64, u32)>,
     record_sites: bool,
+    /// tokens whose destruction the call in progress must not perform (C01): the destructor
+    /// records the event and then stops the run by unwinding, before the block is released
+    protected: Vec<Id>,
 }
 
 static mut LOG: Option<Log> = None;
@@ -37,7 +40,7 @@ fn log() -> &'static mut Log {
     unsafe {
         if LOG.is_none() {
             let _p = seam::pause();
-            LOG = Some(Log { counts: vec![], events: vec![], ticks: 0, armed: vec![], fired: 0, trace_sites: vec![], record_sites: false });
+            LOG = Some(Log { counts: vec![], events: vec![], ticks: 0, armed: vec![], fired: 0, trace_sites: vec![], record_sites: false, protected: vec![] });
         }
         LOG.as_mut().unwrap()
     }
@@ -53,6 +56,7 @@ pub fn begin_run() {
     l.fired = 0;
     l.trace_sites.clear();
     l.record_sites = false;
+    l.protected.clear();
 }
 
 /// A value whose destruction is observable. Every payload with a destructor carries one.
@@ -70,7 +74,22 @@ impl Drop for Tok {
         l.counts[id] = l.counts[id].saturating_add(1);
         let (ctx, ctx_arena) = seam::ctx();
         l.events.push(DropEvent { id: self.0, ctx, ctx_arena });
+        if ctx == seam::CTX_COLLECT && l.protected.binary_search(&self.0).is_ok() && !std::thread::panicking() {
+            // a strongly reachable value is being destructed: stop here, with the heap still intact
+            l.protected.clear();
+            std::panic::panic_any(StopRun);
+        }
     }
+}
+
+/// Tokens the collection call about to be made must not destruct (sorted).
+pub fn set_protected(mut toks: Vec<Id>) {
+    let _p = seam::pause();
+    toks.sort_unstable();
+    log().protected = toks;
+}
+pub fn clear_protected() {
+    log().protected.clear();
 }
 
 pub fn drops(id: Id) -> u8 {
